@@ -286,6 +286,26 @@ func TestC02_Open(t *testing.T) {
 	})
 }
 
+// ---------- (a') histories through the real file backend: save -> crash -> reopen ----------
+
+func TestC02_FileHistory(t *testing.T) {
+	w := hWeights{deliver: 40, ack: 30, save: 16, crash: 8, absorbed: 15, maxVb: 5, minOps: 1, maxOps: scale(50, 150)}
+	known := isKnown("C01", sigF1)
+	rapid.Check(t, func(rt *rapid.T) {
+		sc := genHistory(rt, w)
+		sc.File = true
+		// always end with a restart so that what was persisted is loaded back
+		sc.Ops = append(sc.Ops, hOp{Op: "crash"})
+		journal("C02", "c02filehist", sc)
+		v, labels, _ := runHistory(&sc, known != nil, "C02")
+		journalDone()
+		if v != nil {
+			violation(rt, v.Prop, "c02filehist", sc, "%s", v.Detail)
+		}
+		record("C02", sc, labels["file_save_with_idle_vbucket"] && labels["file_reload_checked"], append(labelList(labels), "file_histories")...)
+	})
+}
+
 // ---------- (b) round trips ----------
 
 type c02RT struct {
@@ -590,6 +610,7 @@ func init() {
 		}
 		return c02ExecOpen(sc)
 	})
+	registerReplay("c02filehist", histReplayer(func() bool { return false }, "C02"))
 	registerReplay("c02rt", func(raw json.RawMessage) string {
 		var sc c02RT
 		if err := json.Unmarshal(raw, &sc); err != nil {
